@@ -11,8 +11,8 @@ def kseq(r):
     if r < 6:
         return [16, 64, 256, 1024]
     if r < 12:
-        return [4, 16, 64, 256]
-    return [1, 4, 16, 64]
+        return [4, 16, 64, 256, 1024]
+    return [1, 4, 16, 64, 256]
 
 
 def converged_area(c, r):
@@ -44,7 +44,7 @@ def check_cell(acc, a5, c, r, label):
         acc.violation(k + ':raises', f'raised {type(e).__name__}: {e}', case)
         return
     want = 4 * math.pi / rm.num_cells(r)
-    allow = 1e-6 + 8 * 5e-14 / sp.width(r)
+    allow = 1e-6 + 8 * 5e-15 / sp.width(r)
     if not settled:
         acc.n['not_settled_at_K_cap'] += 1
         allow += 2e-6          # the K sequence did not settle: only a coarser statement can be made
@@ -104,8 +104,8 @@ def run(tier, t0):
                 deep.append(((i + r + common.seed() + 5 * j) % 12, (i * 3 + r + j) % 5) + d)
     for ch in common.chunks(sorted(set(deep)), 24):
         tasks.append((work_paths, ch))
-    for kind, lon, lat in geo.special_sites():
-        rs = list(range(0, 30)) if tier == 'thorough' else list(range(common.seed() % 4, 30, 4)) + [28, 29]
+    for kind, lon, lat in geo.special_sites(tier, common.seed()):
+        rs = list(range(0, 30)) if tier == 'thorough' else list(range(common.seed() % 4, 30, 4)) + [26, 27, 28, 29]
         tasks.append((work_site, (kind, lon, lat, sorted(set(rs)))))
     tasks = common.rotate(tasks, common.seed())
     for part in common.pmap(_dispatch, tasks, chunksize=1):
@@ -115,7 +115,7 @@ def run(tier, t0):
             'ring area at K, 4K, 16K(, 64K) segments per edge, Richardson-extrapolated; non-trivial = cells whose converged area met the bound')
     return common.finish(PID, LEVEL, tier, acc, t0, rule, [
         'ring vertices converted with the closed-form WGS84 authalic latitude (not the library series); area by the signed spherical-excess formula in difference form',
-        'allowance 1e-6 + 8*(5e-14 rad)/width(r): the second term is the numerical accuracy of lon/lat doubles (statement: "to within the numerical accuracy of the boundary")',
+        'allowance 1e-6 + 8*(5e-15 rad)/width(r): the second term is the numerical accuracy of the boundary coordinates (statement: "to within the numerical accuracy of the boundary"); measured noise on the unchanged tree is 1.6e-15/width (coverage.maxima.area_rel_err_r*), i.e. 25x below the allowance',
         'the discretisation error of a K-segment ring decays as K^-2 (measured); the limit is extrapolated from the last two K',
     ], exhaustive=False)
 
